@@ -1,6 +1,9 @@
 //! C04 — LCOV input fidelity. (1) spec oracle `parse_lcov(render ast) = sem ast` on the
-//! implementation, with shrinking and guard attribution; (2) tie of parse_lcov to the Lean
-//! byte-machine `Lcov.parse` on well-formed and malformed inputs.
+//! implementation for well-formed ASTs (any record order, FNDA before or after FN, DA checksum
+//! fields), with shrinking, and `parse_lcov(render ast) = Err(Parse)` for ASTs with an FNDA whose
+//! function is declared nowhere in its section; (2) tie of parse_lcov to the Lean byte-machine
+//! `Lcov.parse` on well-formed and malformed inputs. Minimised past failures (corpus/C04/*.json and
+//! `witnesses()`) are replayed first.
 use corrlib::*;
 use corrlib::lcov::*;
 use grcov::parse_lcov;
@@ -68,29 +71,6 @@ pub fn shrink(mut secs: Vec<Section>, crlf: bool, branch: bool) -> Vec<Section> 
     }
 }
 
-/// every FNDA names a function declared in the same section
-fn well_formed(secs: &[Section]) -> bool {
-    secs.iter().all(|s| {
-        s.recs.iter().all(|r| match r {
-            Rec::Fnda(_, n) => s
-                .recs
-                .iter()
-                .any(|q| matches!(q, Rec::Fn(_, m) if m == n)),
-            _ => true,
-        })
-    })
-}
-
-fn finding_of(guards: &[&'static str]) -> Option<&'static str> {
-    if guards.len() != 1 {
-        return None;
-    }
-    Some(match guards[0] {
-        "fnda_before_fn" => "C04-fnda-before-fn",
-        _ => return None,
-    })
-}
-
 pub fn show_secs(secs: &[Section]) -> serde_json::Value {
     json!(secs
         .iter()
@@ -105,14 +85,14 @@ pub fn check_fidelity(rep: &mut Report, secs: &[Section], crlf: bool, branch: bo
     if let Some(_) = fidelity_fails(secs, crlf, branch) {
         let min = shrink(secs.to_vec(), crlf, branch);
         let (got, want) = fidelity_fails(&min, crlf, branch).unwrap();
-        let guards: Vec<&'static str> = min.iter().flat_map(|s| guard_violations(s)).collect();
+        let feats: Vec<&'static str> = min.iter().flat_map(|s| features(s)).collect();
         let bytes = render(&min, crlf);
         rep.fail(
             "oracle",
-            finding_of(&guards),
+            None,
             format!(
-                "parse_lcov(render ast) != what the records say (minimised; guards violated: {:?})",
-                guards
+                "parse_lcov(render ast) != what the records say (minimised; features of the AST: {:?})",
+                feats
             ),
             json!({"op": "lcov.fidelity", "branch": branch, "crlf": crlf,
                    "tracefile_hex": hex(&bytes), "tracefile": String::from_utf8_lossy(&bytes),
@@ -121,15 +101,101 @@ pub fn check_fidelity(rep: &mut Report, secs: &[Section], crlf: bool, branch: bo
     }
 }
 
+/// the other half of the FN/FNDA rule (C04_fnda_without_fn_rejected): some FNDA record names a
+/// function that no FN record of its section declares => Err(Parse), whatever else the file holds
+pub fn check_undeclared(rep: &mut Report, secs: &[Section], crlf: bool, branch: bool) {
+    if rep.verdict_clear() {
+        return;
+    }
+    let bytes = render(secs, crlf);
+    let got = run_impl(&bytes, branch);
+    if got != "err Parse" {
+        rep.fail(
+            "oracle",
+            None,
+            "a tracefile with an FNDA record whose function is declared nowhere in its section is not rejected with Err(Parse)".into(),
+            json!({"op": "lcov.fidelity", "branch": branch, "crlf": crlf,
+                   "tracefile_hex": hex(&bytes), "tracefile": String::from_utf8_lossy(&bytes),
+                   "impl": got, "spec": "err Parse"}),
+        );
+    }
+}
+
+/// make one FNDA of one section undeclared: drop the FN records of its function, or add an FNDA
+/// for a function the section never declares
+fn undeclare(rng: &mut Rng, secs: &mut Vec<Section>) {
+    let k = rng.below(secs.len() as u64) as usize;
+    let s = &mut secs[k];
+    let named: Vec<String> = s
+        .recs
+        .iter()
+        .filter_map(|r| if let Rec::Fnda(_, n) = r { Some(n.clone()) } else { None })
+        .collect();
+    if !named.is_empty() && rng.chance(2, 3) {
+        let n = rng.pick(&named).clone();
+        s.recs.retain(|r| !matches!(r, Rec::Fn(_, m) if *m == n));
+    } else {
+        let pos = rng.below(s.recs.len() as u64 + 1) as usize;
+        let c = *rng.pick(&[0u64, 1, 5]);
+        s.recs.insert(pos, Rec::Fnda(c, "ghost_fn".into()));
+    }
+}
+
+/// corpus/C04/*.json: minimised past failures (tracefile bytes + the outcome the records call for);
+/// each must hold on the current tree and agree with the model
+fn corpus(rep: &mut Report, reqs: &mut Vec<String>, impl_out: &mut Vec<String>, inputs: &mut Vec<(Vec<u8>, bool)>) {
+    let mut files: Vec<std::path::PathBuf> = std::fs::read_dir("/verif/corpus/C04")
+        .map(|d| d.filter_map(|e| e.ok().map(|e| e.path())).collect())
+        .unwrap_or_default();
+    files.retain(|p| p.extension().map(|e| e == "json").unwrap_or(false));
+    files.sort();
+    for p in files {
+        let v: serde_json::Value = match std::fs::read_to_string(&p).ok().and_then(|t| serde_json::from_str(&t).ok()) {
+            Some(v) => v,
+            None => {
+                rep.notes.push(format!("corpus file {} is not JSON", p.display()));
+                continue;
+            }
+        };
+        let case = &v["case"];
+        let (Some(h), Some(spec)) = (case["tracefile_hex"].as_str(), case["spec"].as_str()) else {
+            rep.notes.push(format!("corpus file {} is not a C04 case", p.display()));
+            continue;
+        };
+        let branch = case["branch"].as_bool().unwrap_or(true);
+        let bytes = unhex(h);
+        let got = run_impl(&bytes, branch);
+        rep.count("corpus.cases");
+        rep.case(&format!("corpus {}", hex(&bytes)), true);
+        if got != spec && !rep.verdict_clear() {
+            rep.fail(
+                "oracle",
+                None,
+                format!("corpus case {}: parse_lcov(tracefile) != recorded outcome", p.display()),
+                json!({"op": "lcov.fidelity", "branch": branch, "tracefile_hex": h,
+                       "tracefile": String::from_utf8_lossy(&bytes), "impl": got, "spec": spec}),
+            );
+        }
+        reqs.push(format!("lcov.parse {} {}", if branch { 1 } else { 0 }, hex(&bytes)));
+        impl_out.push(got);
+        inputs.push((bytes, branch));
+    }
+}
+
 pub fn run(rep: &mut Report) {
-    rep.rule = "ASTs of 1-4 sections (shuffled DA/FN/FNDA/BRDA records, duplicates, '-'/0/positive taken counts, \
+    rep.rule = "ASTs of 1-4 sections (shuffled DA/FN/FNDA/BRDA records - FNDA before or after its FN -, duplicates, \
+                DA checksum fields (record-like, number-like, with commas, base64 MD5), '-'/0/positive taken counts, \
                 several blocks per line, negative counts, other lcov record types, blank lines, LF/CRLF, UTF-8 \
-                names with commas) rendered and parsed, plus a malformed stream (mutated renders, random lcov-ish \
-                bytes) for the tie; non-trivial = the file has ≥1 DA and (≥1 BRDA or ≥1 FN) or is malformed; \
-                distinct = distinct input bytes"
+                names with commas) rendered and parsed; the same with one FNDA made undeclared (must be Err(Parse)); \
+                plus a malformed stream (mutated renders, random lcov-ish bytes) for the tie; non-trivial = the file \
+                has ≥1 DA and (≥1 BRDA or ≥1 FN) or is malformed; distinct = distinct input bytes"
         .to_string();
     let mut rng = Rng::new(rep.seed ^ 0xC04);
+    let mut reqs = vec![];
+    let mut impl_out = vec![];
+    let mut inputs = vec![];
     // ---- corpus of fixed witnesses (past failures) first ----------------------------------------
+    corpus(rep, &mut reqs, &mut impl_out, &mut inputs);
     for w in witnesses() {
         let (name, secs, crlf, branch) = w;
         rep.count(&format!("witness.{}", name));
@@ -139,9 +205,6 @@ pub fn run(rep: &mut Report) {
     // ---- generated ASTs ---------------------------------------------------------------------
     let n = rep.budget(6_000, 30);
     let cfg = GenCfg::full();
-    let mut reqs = vec![];
-    let mut impl_out = vec![];
-    let mut inputs = vec![];
     for i in 0..n {
         let ns = rng.range(1, 4);
         let secs: Vec<Section> = (0..ns).map(|_| gen_section(&mut rng, &cfg)).collect();
@@ -167,6 +230,23 @@ pub fn run(rep: &mut Report) {
         if i < 1 {
             rep.sample(json!({"tracefile": String::from_utf8_lossy(&bytes), "branch": branch, "impl": out}));
         }
+        reqs.push(format!("lcov.parse {} {}", if branch { 1 } else { 0 }, hex(&bytes)));
+        impl_out.push(out);
+        inputs.push((bytes, branch));
+    }
+    // ---- an FNDA without its FN anywhere in the section ----------------------------------------
+    let u = rep.budget(600, 30);
+    for _ in 0..u {
+        let ns = rng.range(1, 3);
+        let mut secs: Vec<Section> = (0..ns).map(|_| gen_section(&mut rng, &cfg)).collect();
+        undeclare(&mut rng, &mut secs);
+        let crlf = rng.chance(1, 3);
+        let branch = rng.chance(3, 4);
+        let bytes = render(&secs, crlf);
+        rep.case(&hex(&bytes), true);
+        rep.count("ast.undeclared_fnda");
+        check_undeclared(rep, &secs, crlf, branch);
+        let out = run_impl(&bytes, branch);
         reqs.push(format!("lcov.parse {} {}", if branch { 1 } else { 0 }, hex(&bytes)));
         impl_out.push(out);
         inputs.push((bytes, branch));
@@ -440,7 +520,7 @@ pub fn witnesses() -> Vec<(&'static str, Vec<Section>, bool, bool)> {
         ),
         (
             "da_sum_overflow",
-            vec![sec(vec![Rec::Da(1, u64::MAX as i128), Rec::Da(1, 2)])],
+            vec![sec(vec![Rec::Da(1, u64::MAX as i128, None), Rec::Da(1, 2, None)])],
             false,
             true,
         ),
@@ -455,10 +535,44 @@ pub fn witnesses() -> Vec<(&'static str, Vec<Section>, bool, bool)> {
             true,
         ),
         (
-            "fnda_before_fn",
+            "fnda_precedes_fn",
             vec![sec(vec![Rec::Fnda(1, "f".into()), Rec::Fn(1, "f".into())])],
             false,
             true,
+        ),
+        (
+            "fnda_around_fn",
+            vec![sec(vec![
+                Rec::Fnda(0, "f".into()),
+                Rec::Fnda(2, "g".into()),
+                Rec::Fn(3, "g".into()),
+                Rec::Fn(1, "f".into()),
+                Rec::Fnda(0, "g".into()),
+            ])],
+            true,
+            true,
+        ),
+        (
+            "da_checksum_like_end_of_record",
+            vec![sec(vec![Rec::Da(1, 5, Some("eAbCd".into())), Rec::Da(2, 1, None)])],
+            false,
+            true,
+        ),
+        (
+            "da_checksum_like_sf",
+            vec![sec(vec![Rec::Da(2, 3, Some("SFxyz".into())), Rec::Fn(1, "f".into())])],
+            false,
+            true,
+        ),
+        (
+            "da_checksum_md5_crlf",
+            vec![sec(vec![
+                Rec::Da(1, 5, Some("1B2M2Y8AsgTpgAmY7PhCfg".into())),
+                Rec::Da(1, 2, Some("7,8".into())),
+                Rec::Da(3, 0, Some("-".into())),
+            ])],
+            true,
+            false,
         ),
     ]
 }
